@@ -36,3 +36,33 @@ def classify_type_violation(case, violation, stage, inits):
 
 def classify_recurrence_violation(case, violation, recs, program, stage, inits):
     return None
+
+
+K_SHIFT = "termination-sequence-shifted-when-guard-variable-reassigned"
+
+
+def classify_termination_violation(bad, seq, ref, values, N, guard_reassigned):
+    """K_SHIFT: the guard variable is assigned in the body, so Polar's recovered guard is over the _old copy taken at the
+    start of the iteration: its sequence equals the true conditional sequence delayed by one iteration
+    (and has the uninitialised _old..0 symbol at n=0)."""
+    from . import polar_api as P
+    if not guard_reassigned:
+        return None
+    if bad["kind"] == "leftover-symbol-in-conditional-sequence":
+        if bad.get("n") == 0 and all(s.startswith("_old") and s.endswith("0") for s in bad.get("symbols", [])):
+            return K_SHIFT
+        return None
+    if bad["kind"] != "wrong-conditional-moment":
+        return None
+    pts = 0
+    for n in range(1, N + 1):
+        if ref[n - 1] is None:
+            continue
+        try:
+            pv = P.eval_at(seq, n, values)
+        except Exception:
+            return None
+        if not P.values_equal(pv, ref[n - 1]):
+            return None
+        pts += 1
+    return K_SHIFT if pts >= 2 else None
